@@ -48,10 +48,10 @@ const GROUPS: [&str; 3] = ["DEFAULT_GROUP", "GROUP", "g:1.x"];
 const DATA_IDS: [&str; 4] = ["app", "app.yaml", "db_app-2", "数据.yaml"];
 const NKEYS: usize = 36;
 
+/// the first CANONICAL_TYPES entries of TYPES are the names `ConfigType::get_value` stores
+const CANONICAL_TYPES: usize = 7;
 /// raw type strings: openapi and gRPC handlers send canonical names, console v2 forwards whatever the
 /// client sent; the ConfigAdd apply path normalises
-/// the first CANONICAL_TYPES entries are the names `ConfigType::get_value` stores
-const CANONICAL_TYPES: usize = 7;
 const TYPES: [&str; 12] = ["json", "yaml", "properties", "text", "xml", "html", "toml", "yml", "JSON", "Yaml", "", "no-such-type"];
 /// console v2 can send an empty description (openapi / gRPC map empty to absent)
 const DESCS: [&str; 5] = ["d1", "", "描述 two", "third desc \u{2} ctl", "d1 "];
@@ -1250,7 +1250,7 @@ pub fn main(ctx: &Ctx) -> i32 {
             return finish(ctx, &stats, fin(), Some(Failure { case, message: m.clone() }));
         }
     }
-    let n = ctx.tier.pick(24_000u32, 400_000u32);
+    let n = ctx.tier.pick(24_000u32, 200_000u32);
     let strategy: fn() -> BoxedStrategy<Case> = ctx.tier.pick(case_strategy_quick as fn() -> _, case_strategy_thorough as fn() -> _);
     let st = stats.clone();
     let seen_excluded: Arc<std::sync::Mutex<std::collections::HashSet<u64>>> = Arc::new(Default::default());
